@@ -584,6 +584,28 @@ func (g *cGen) pop() []*cStmt {
 	return res
 }
 
+// scopedName: the name of a variable declared in a scope of its own (for init, the counter block of a
+// condition-only loop): fresh, or the name of a visible variable, which it shadows until the scope ends.
+// The shadowed variable is returned so that the caller can read it again after the scope.
+func (g *cGen) scopedName() (string, *cVar) {
+	if g.r.Chance(1, 2) {
+		var vs []*cVar
+		for _, ty := range []Kind{KInt, KBool} {
+			for _, v := range g.vars(ty, false) {
+				if v.name != "d" {
+					vs = append(vs, v)
+				}
+			}
+		}
+		if len(vs) > 0 {
+			v := vs[g.r.Intn(len(vs))]
+			g.f("shadow:for-var")
+			return v.name, v
+		}
+	}
+	return g.fresh(), nil
+}
+
 func (g *cGen) fresh() string { g.nvar++; return fmt.Sprintf("v%d", g.nvar) }
 
 // block generates a statement list in a fresh scope.
@@ -758,13 +780,14 @@ func (g *cGen) ifStmt() *cStmt {
 
 func (g *cGen) forStmt() *cStmt {
 	n := uint64(g.r.Range(0, 4))
+	loopName, outer := g.scopedName()
 	g.push() // the for statement's own scope
 	var pre []*cStmt
 	s := &cStmt{k: "for"}
 	var bodyPrefix []*cStmt
 	switch g.r.Intn(3) {
 	case 0: // three-clause
-		i := g.fresh()
+		i := loopName
 		g.decl(&cVar{name: i, ty: KInt, ro: true, used: true})
 		g.f("stmt:for-3")
 		post := &cStmt{k: "++", x: i}
@@ -774,7 +797,7 @@ func (g *cGen) forStmt() *cStmt {
 		s.kids = []*cStmt{{k: ":=", x: i, e: lit(0)}, post}
 		s.e = mkBin("lt", &cExpr{k: "V", x: i, ty: KInt}, lit(n), KBool)
 	case 1: // condition only, with a fuel counter declared just before the loop
-		k := g.fresh()
+		k := loopName
 		g.f("stmt:for-cond")
 		pre = append(pre, &cStmt{k: ":=", x: k, e: lit(0)})
 		g.decl(&cVar{name: k, ty: KInt, ro: true, used: true})
@@ -786,7 +809,7 @@ func (g *cGen) forStmt() *cStmt {
 		s.e = c
 		bodyPrefix = append(bodyPrefix, &cStmt{k: "++", x: k})
 	default: // for { … break }
-		k := g.fresh()
+		k := loopName
 		g.f("stmt:for-ever")
 		pre = append(pre, &cStmt{k: ":=", x: k, e: lit(0)})
 		g.decl(&cVar{name: k, ty: KInt, ro: true, used: true})
@@ -802,13 +825,22 @@ func (g *cGen) forStmt() *cStmt {
 	}
 	s.kids = append(s.kids, body)
 	tail := g.pop()
-	if len(pre) == 0 && len(tail) == 0 {
-		return s
+	res := s
+	if len(pre) != 0 || len(tail) != 0 {
+		// the fuel counter lives in an enclosing block
+		all := append(pre, s)
+		all = append(all, tail...)
+		res = &cStmt{k: "blk", kids: []*cStmt{seq(all)}}
 	}
-	// the fuel counter lives in an enclosing block
-	all := append(pre, s)
-	all = append(all, tail...)
-	return &cStmt{k: "blk", kids: []*cStmt{seq(all)}}
+	if outer != nil {
+		// read the shadowed outer variable again once the loop's scope has ended
+		t := g.fresh()
+		g.decl(&cVar{name: t, ty: outer.ty})
+		outer.used = true
+		rd := &cStmt{k: ":=", x: t, e: &cExpr{k: "V", x: outer.name, ty: outer.ty}}
+		return &cStmt{k: ";", kids: []*cStmt{res, {k: ";", kids: []*cStmt{rd, {k: "skip"}}}}}
+	}
+	return res
 }
 
 func unseq(s *cStmt) []*cStmt {
@@ -846,6 +878,14 @@ func (g *cGen) function(f *cFunc, budget int) {
 	g.depth++
 	for i := 0; i < budget && g.budget > 0; i++ {
 		ss = append(ss, g.stmt())
+	}
+	for _, ty := range []Kind{KInt, KBool} {
+		for _, v := range g.vars(ty, false) {
+			if g.r.Chance(1, 2) {
+				v.used = true
+				ss = append(ss, &cStmt{k: "discard", e: &cExpr{k: "V", x: v.name, ty: v.ty}})
+			}
+		}
 	}
 	if f.ret != KVoid || g.r.Chance(1, 3) {
 		ss = append(ss, g.retStmt())
